@@ -17,6 +17,8 @@ use crate::rng::Rng;
 pub struct C08;
 
 const DECLS: &str = "commodity USD\n\ncommodity EUR\n\ncommodity JPY\n\ncommodity AAPL\n\n";
+/// The same commodities with display formats: evaluation stays exact whatever precision is declared.
+const DECLS_FMT: &str = "commodity USD\n    format 1,000.00 USD\n\ncommodity EUR\n    format 1,000.0 EUR\n\ncommodity JPY\n    format 1,000 JPY\n\ncommodity AAPL\n    format 1,000.0000 AAPL\n\n";
 
 /// Does the observed multi-commodity value match the model's (zero entries ignored)?
 fn value_matches(got: &Multi, want: &BTreeMap<String, Q>, inexact: bool) -> bool {
@@ -145,7 +147,9 @@ impl C08 {
         // ---- context 1: Ledger::eval
         {
             rec.op("Ledger::eval", &text);
-            let files = vec![(ops::ROOT.to_string(), DECLS.to_string())];
+            let with_formats = rng.chance(1, 2);
+            rec.count(if with_formats { "eval:formats-declared" } else { "eval:no-formats" });
+            let files = vec![(ops::ROOT.to_string(), if with_formats { DECLS_FMT } else { DECLS }.to_string())];
             let t2 = text.clone();
             let got = guarded(rec, || {
                 ops::with_processed(&files, ops::ROOT, None, |rctx, r| match r {
@@ -261,14 +265,30 @@ impl C08 {
             }
         }
         // ---- the real binary, a small sample
-        if rng.chance(ctx.tier.pick(4, 2), 1000) {
+        // The command joins its arguments and evaluates them as one expression, so the outermost
+        // parentheses may be left out and the words may arrive as separate arguments.
+        let bare = match tree {
+            Value::Paren(e) if rng.chance(1, 2) => Some(expr::render_add(e, &mut || 0u8)),
+            _ => None,
+        };
+        let group_both_ends = bare.as_ref().map(|b| b.starts_with('(') && b.ends_with(')')).unwrap_or(false);
+        if rng.chance(if group_both_ends { ctx.tier.pick(300, 100) } else { ctx.tier.pick(4, 2) }, 1000) {
             let dir = ctx.scratch.join("c08");
             let _ = std::fs::create_dir_all(&dir);
             let f = dir.join("decl.ledger");
-            let _ = std::fs::write(&f, DECLS);
+            let with_formats = rng.chance(1, 2);
+            let _ = std::fs::write(&f, if with_formats { DECLS_FMT } else { DECLS });
             let fs = f.to_string_lossy().into_owned();
-            let argv = ["primitive", "eval", "--date", "2024-01-01", "-f", fs.as_str(), "--", text.as_str()];
-            rec.op("okane primitive eval (cli)", &text);
+            let cli_text = bare.clone().unwrap_or(text.clone());
+            let split_words = bare.is_some() && rng.chance(1, 2);
+            let mut argv: Vec<&str> = vec!["primitive", "eval", "--date", "2024-01-01", "-f", fs.as_str(), "--"];
+            if split_words {
+                argv.extend(cli_text.split(' ').filter(|w| !w.is_empty()));
+            } else {
+                argv.push(cli_text.as_str());
+            }
+            rec.count(&format!("cli:eval:{}{}{}", if bare.is_some() { "bare" } else { "parenthesised" }, if group_both_ends { "+groups-at-both-ends" } else { "" }, if split_words { "+split-argv" } else { "" }));
+            rec.op("okane primitive eval (cli)", &cli_text);
             if let Ok(res) = cli::run_okane(&ctx.cli_a, &argv, &dir) {
                 rec.count("cli:eval-runs");
                 let got: Result<Multi, String> = if res.ok() {
